@@ -189,6 +189,20 @@ Section Cols.
     - unfold M_widths. rewrite walk_at_depth_exact. f_equal. apply (widths_exact d t h Hu Ho).
   Qed.
 
+  (* labels_at_depth (iter_label before the table is built): the same widths, expanded in place *)
+  Lemma at_level_labels : forall d (t : level), at_level _ get_labels d t = expand (at_level _ get_widths d t).
+  Proof.
+    induction d as [|d IH]; intro t; [reflexivity|]. cbn [at_level]. destruct t as [o ls|o ls ks]; [reflexivity|].
+    unfold expand. rewrite flat_map_flat_map. apply flat_map_ext. intro k. apply IH.
+  Qed.
+
+  Theorem labels_at_depth_exact : forall (t : level) h d, uniform h t = true -> offsets_ok t = true ->
+    M_labels_at_depth t d = Ok (S_column (flatten t) d).
+  Proof.
+    intros t h d Hu Ho. unfold M_labels_at_depth. rewrite walk_at_depth_exact, at_level_labels.
+    f_equal. apply (widths_exact d t h Hu Ho).
+  Qed.
+
   Lemma res_all_ok {B C} (f : B -> res C) (g : B -> C) : forall l, (forall x, In x l -> f x = Ok (g x)) ->
     res_all (map f l) = Ok (map g l).
   Proof.
